@@ -429,6 +429,255 @@ func genC15(p *Pkg) (map[string]string, error) {
 		}
 		fmt.Fprintf(&b, "def %s : String := %s\n", it[3], LeanString(found))
 	}
+	// ---------------- decision structure (robust against unrelated edits of the same functions) ----------------
+	norm := func(x string) string {
+		x = strings.ReplaceAll(x, "r.vm.callStack", "callStack")
+		x = strings.ReplaceAll(x, "vm.callStack", "callStack")
+		return x
+	}
+	// (a) every call site of leaveAbrupt: is it guarded by "call stack empty" and by "payload is uncatchable"; how many args
+	type laSite struct {
+		fn                  string
+		emptyCS, uncatch    bool
+		nargs               int
+	}
+	var laSites []laSite
+	for _, fname := range func() []string {
+		ns := make([]string, 0, len(p.Files))
+		for n := range p.Files {
+			ns = append(ns, n)
+		}
+		sort.Strings(ns)
+		return ns
+	}() {
+		for _, d := range p.Files[fname].Decls {
+			fd, ok := d.(*ast.FuncDecl)
+			if !ok || fd.Body == nil {
+				continue
+			}
+			var stack []ast.Node
+			ast.Inspect(fd.Body, func(n ast.Node) bool {
+				if n == nil {
+					stack = stack[:len(stack)-1]
+					return true
+				}
+				stack = append(stack, n)
+				call, ok := n.(*ast.CallExpr)
+				if !ok {
+					return true
+				}
+				sel, ok := call.Fun.(*ast.SelectorExpr)
+				if !ok || sel.Sel.Name != "leaveAbrupt" {
+					return true
+				}
+				site := laSite{fn: fd.Name.Name, nargs: len(call.Args)}
+				for i := len(stack) - 2; i >= 0; i-- {
+					if _, isFn := stack[i].(*ast.FuncLit); isFn {
+						break
+					}
+					ifs, ok := stack[i].(*ast.IfStmt)
+					if !ok {
+						continue
+					}
+					// the call must be in the THEN branch
+					if !(call.Pos() >= ifs.Body.Pos() && call.End() <= ifs.Body.End()) {
+						continue
+					}
+					init := ""
+					if ifs.Init != nil {
+						init = c15Src(p, ifs.Init)
+					}
+					for _, cj := range strings.Split(norm(c15Src(p, ifs.Cond)), "&&") {
+						cj = strings.TrimSpace(cj)
+						if cj == "len(callStack) == 0" {
+							site.emptyCS = true
+						}
+						if cj == "asUncatchableException(x) != nil" || (cj == "ex != nil" && strings.HasPrefix(init, "ex := asUncatchableException(x)")) {
+							site.uncatch = true
+						}
+					}
+				}
+				laSites = append(laSites, site)
+				return true
+			})
+		}
+	}
+	b.WriteString("/-- call sites of leaveAbrupt: (function, guarded by `len(callStack) == 0`, guarded by `payload is uncatchable`, #args) -/\n")
+	b.WriteString("def leaveAbruptSites : List (String × Bool × Bool × Nat) := [")
+	for i, st := range laSites {
+		if i > 0 {
+			b.WriteString(", ")
+		}
+		fmt.Fprintf(&b, "(%s, %v, %v, %d)", LeanString(st.fn), st.emptyCS, st.uncatch, st.nargs)
+	}
+	b.WriteString("]\n")
+	// (b) leaveAbrupt's unconditional effects
+	{
+		fd := p.FuncDecl("Runtime", "leaveAbrupt")
+		drops, clears := false, false
+		for _, st := range fd.Body.List {
+			switch c15Src(p, st) {
+			case "r.jobQueue = nil":
+				drops = true
+			case "r.ClearInterrupt()", "r.vm.ClearInterrupt()":
+				clears = true
+			}
+		}
+		fmt.Fprintf(&b, "/-- leaveAbrupt, unconditional top-level statements: drops the job queue, clears the interrupt flag; #params -/\n")
+		fmt.Fprintf(&b, "def leaveAbruptEffects : Bool × Bool × Nat := (%v, %v, %d)\n", drops, clears, fd.Type.Params.NumFields())
+	}
+	// (c) order of the classified statements (unknown statements are ignored)
+	classify := func(fd *ast.FuncDecl, list []ast.Stmt, table [][2]string) []string {
+		var out []string
+		for _, st := range list {
+			src := c15Src(p, st)
+			for _, kv := range table {
+				if strings.HasPrefix(src, kv[0]) {
+					out = append(out, kv[1])
+					break
+				}
+			}
+		}
+		return out
+	}
+	{
+		fd := p.FuncDecl("vm", "Interrupt")
+		fmt.Fprintf(&b, "def interruptOrder : List String := %s\n", leanStrList(classify(fd, fd.Body.List, [][2]string{
+			{"vm.interruptLock.Lock()", "lock"}, {"vm.interruptVal = v", "val"},
+			{"atomic.StoreUint32(&vm.interrupted, 1)", "store"}, {"vm.interruptLock.Unlock()", "unlock"}})))
+		fd = p.FuncDecl("vm", "ClearInterrupt")
+		fmt.Fprintf(&b, "def clearOrder : List String := %s\n", leanStrList(classify(fd, fd.Body.List, [][2]string{
+			{"atomic.StoreUint32(&vm.interrupted, 0)", "store0"}, {"vm.interruptLock", "lock?"}, {"vm.interruptVal", "val?"}})))
+	}
+	for _, name := range []string{"run", "runWithProfiler"} {
+		fd := p.FuncDecl("vm", name)
+		var loop *ast.ForStmt
+		var after *ast.IfStmt
+		for _, st := range fd.Body.List {
+			if f, ok := st.(*ast.ForStmt); ok && loop == nil && f.Cond == nil {
+				loop = f
+			} else if i, ok := st.(*ast.IfStmt); ok && loop != nil && c15Src(p, i.Cond) == "interrupted" {
+				after = i
+			}
+		}
+		if loop == nil {
+			return nil, fmt.Errorf("%s: no run loop", name)
+		}
+		fmt.Fprintf(&b, "def %sOrder : List String := %s\n", name, leanStrList(classify(fd, loop.Body.List, [][2]string{
+			{"if interrupted = atomic.LoadUint32(&vm.interrupted) != 0; interrupted {", "poll"},
+			{"if pc < 0 || pc >= len(vm.prg.code) { break }", "halt"}, {"vm.prg.code[pc].exec(vm)", "exec"}})))
+		if name == "run" {
+			var lst []ast.Stmt
+			if after != nil {
+				lst = after.Body.List
+			}
+			fmt.Fprintf(&b, "def raiseOrder : List String := %s\n", leanStrList(classify(fd, lst, [][2]string{
+				{"vm.interruptLock.Lock()", "lock"}, {"v := &InterruptedError{ iface: vm.interruptVal", "err=interruptVal"},
+				{"vm.interruptVal", "val?"}, {"vm.interruptLock.Unlock()", "unlock"}, {"panic(v)", "panic"},
+				{"atomic.StoreUint32(&vm.interrupted", "flag?"}})))
+		}
+	}
+	// (d) handleThrow: the condition under which open iterators are closed
+	{
+		fd := p.FuncDecl("vm", "handleThrow")
+		arg := "<absent>"
+		ast.Inspect(fd.Body, func(n ast.Node) bool {
+			if call, ok := n.(*ast.CallExpr); ok {
+				if sel, ok := call.Fun.(*ast.SelectorExpr); ok && sel.Sel.Name == "_restoreStacks" && len(call.Args) == 3 {
+					arg = c15Src(p, call.Args[2])
+					return false
+				}
+			}
+			return true
+		})
+		fmt.Fprintf(&b, "def handleThrowClosesItersIff : String := %s\n", LeanString(arg))
+	}
+
+	// vm.curAsyncRunner: per function that assigns it — does it set a non-nil value, does it reset it to nil inside a
+	// defer, does it reset it in a plain statement
+	type carInfo struct{ nonNil, deferredNil, plainNil bool }
+	carFns := map[string]*carInfo{}
+	var carOrder []string
+	fnames := make([]string, 0, len(p.Files))
+	for n := range p.Files {
+		fnames = append(fnames, n)
+	}
+	sort.Strings(fnames)
+	for _, fname := range fnames {
+		for _, d := range p.Files[fname].Decls {
+			fd, ok := d.(*ast.FuncDecl)
+			if !ok || fd.Body == nil {
+				continue
+			}
+			var stack []ast.Node
+			ast.Inspect(fd.Body, func(n ast.Node) bool {
+				if n == nil {
+					stack = stack[:len(stack)-1]
+					return true
+				}
+				stack = append(stack, n)
+				as, ok := n.(*ast.AssignStmt)
+				if !ok {
+					return true
+				}
+				for i, l := range as.Lhs {
+					sel, ok := l.(*ast.SelectorExpr)
+					if !ok || sel.Sel.Name != "curAsyncRunner" || i >= len(as.Rhs) {
+						continue
+					}
+					ci := carFns[fd.Name.Name]
+					if ci == nil {
+						ci = &carInfo{}
+						carFns[fd.Name.Name] = ci
+						carOrder = append(carOrder, fd.Name.Name)
+					}
+					inDefer := false
+					for _, a := range stack {
+						if _, ok := a.(*ast.DeferStmt); ok {
+							inDefer = true
+						}
+					}
+					if id, ok := as.Rhs[i].(*ast.Ident); ok && id.Name == "nil" {
+						if inDefer {
+							ci.deferredNil = true
+						} else {
+							ci.plainNil = true
+						}
+					} else {
+						ci.nonNil = true
+					}
+				}
+				return true
+			})
+		}
+	}
+	if len(carOrder) == 0 {
+		return nil, fmt.Errorf("no assignment to vm.curAsyncRunner found")
+	}
+	b.WriteString("/-- functions assigning vm.curAsyncRunner: (name, sets non-nil, resets to nil in a defer, resets to nil in a plain statement) -/\n")
+	b.WriteString("def curAsyncRunnerWriters : List (String × Bool × Bool × Bool) := [")
+	for i, n := range carOrder {
+		if i > 0 {
+			b.WriteString(", ")
+		}
+		ci := carFns[n]
+		fmt.Fprintf(&b, "(%s, %v, %v, %v)", LeanString(n), ci.nonNil, ci.deferredNil, ci.plainNil)
+	}
+	b.WriteString("]\n")
+	// captureStack: the condition under which frames of awaiting async functions are appended
+	capFd := p.FuncDecl("vm", "captureStack")
+	if capFd == nil {
+		return nil, fmt.Errorf("captureStack not found")
+	}
+	asyncCond := "<absent>"
+	ast.Inspect(capFd.Body, func(n ast.Node) bool {
+		if i, ok := n.(*ast.IfStmt); ok && strings.Contains(c15Src(p, i.Body), "captureAsyncStack(") {
+			asyncCond = c15Src(p, i.Cond)
+			return false
+		}
+		return true
+	})
+	fmt.Fprintf(&b, "def captureStackAsyncCond : String := %s\n", LeanString(asyncCond))
 	b.WriteString("\nend GojaModel.Generated.C15\n")
 	return map[string]string{"C15_Facts.lean": b.String()}, nil
 }
